@@ -549,7 +549,7 @@ def restart_trigger_class(rng, id0, count, diag=True):
     radii): a copy that forgets one of the three is invisible unless its own trigger fires."""
     AUTO = {"restarts.auto_detect.history": 3, "restarts.auto_detect.min_chgJ_slope": 0.0, "restarts.auto_detect.min_correl": 0.0}
     out = []
-    trig = ["slow", "noise", "auto", "rhoend", "singular", "slow"]
+    trig = ["slow", "noise", "auto", "rhoend", "singular", "slow", "nan", "nangrow"]
     for j in range(count):
         t = trig[j % len(trig)]
         nn = 2 + (j // 6) % 2
@@ -566,11 +566,36 @@ def restart_trigger_class(rng, id0, count, diag=True):
             up = dict(AUTO)
         elif t == "rhoend":
             inst.update(rhoend=1e-2)
+        elif t in ("nan", "nangrow"):
+            # a NaN is a restartable exit at whichever site evaluates it: trust-region step, geometry step, safety step, growing step
+            inst.update(fault=dict(k=int(rng.integers(nn + 3, 45)), kind=corpus._pick(rng, ["nan", "nan1"])), rhoend=1e-4)
+            if t == "nangrow":
+                inst.update(growing=1, n=3, m=4, fault=dict(k=int(rng.integers(3, 9)), kind="nan"))
         else:
             inst.update(prob="ros3", n=2, m=2, fault=dict(k=int(rng.integers(5, 40)), kind=corpus._pick(rng, ["pinf", "huge"])), rhoend=1e-3)
         if up:
             inst["user_params"] = up
         out.append(inst)
+    return out
+
+
+def nan_site_sweep(rng, id0, step=1, diag=True, kmax=40):
+    """A NaN at EVERY evaluation position of runs with soft restarts that pass through every kind of evaluating step (growing-phase safety steps
+    with either safety method, new directions after a successful step, regression extra steps with and without momentum, geometry steps after
+    an unsuccessful step): an evaluation error is a restartable exit at whichever copy of the restart boilerplate follows that step."""
+    bases = [dict(n=3, m=4, prob="nl", growing=1, rhobeg=1.0),
+             dict(n=3, m=4, prob="nl", growing=1, rhobeg=1.0, user_params={"growing.safety.full_geom_step": True}),
+             dict(n=3, m=4, prob="nl", growing=1, rhobeg=1.0, user_params={"growing.safety.reduce_delta": True}),
+             dict(n=2, m=3, prob="nl", npt="2n+1", user_params={"regression.num_extra_steps": 2}),
+             dict(n=2, m=3, prob="nl", npt="2n+1", user_params={"regression.num_extra_steps": 2, "regression.momentum_extra_steps": True}),
+             dict(n=2, m=2, prob="ros3", rhobeg=1.0)]
+    out = []
+    j = 0
+    for bi, b in enumerate(bases):
+        seed = int(rng.integers(0, 2 ** 31 - 1))
+        for k in range(b["n"] + 2 + (bi % step), kmax, step):
+            out.append(dict(b, id=id0 + j, seed=seed, restarts="soft", maxunsucc=3, rhoend=1e-4, maxfun=kmax + 25, diag=diag, fault=dict(k=k, kind=["pinf", "nan", "huge"][(k + bi) % 3]), trigger="fault@%d" % k))
+            j += 1
     return out
 
 
@@ -636,6 +661,7 @@ def corpus_C10(tier):
         for mf in range(8, 100, 1 if (tier == "thorough" or bi == 2) else 3):      # soft restarts: every budget (a restart must be judged with 1, 2, 3 ... evaluations left)
             out.append(dict(b, id=700000 + 1000 * bi + mf, maxfun=mf))
     out += restart_trigger_class(rng, 780000, 36 if tier == "quick" else 480, diag=False)
+    out += nan_site_sweep(rng, 790000, 4 if tier == "quick" else 1, diag=False, kmax=40 if tier == "quick" else 70)
     return out
 
 
@@ -757,6 +783,7 @@ def corpus_C18(tier):
         out.append(dict(id=810000 + j, seed=int(rng.integers(0, 2 ** 31 - 1)), n=3, m=4, prob="nl", restarts="soft", maxunsucc=4, incnpt=3, rhoend=1e-1, maxfun=150, diag=True,
                         user_params={"restarts.increase_npt_amt": 2}))
     out += restart_trigger_class(rng, 880000, 36 if tier == "quick" else 480)
+    out += nan_site_sweep(rng, 890000, 2 if tier == "quick" else 1, kmax=40 if tier == "quick" else 70)
     return out
 
 
